@@ -89,7 +89,7 @@ var extensions = []string{".ttf", ".otf", ".TTC", "", ".woff"}
 func genHistory(seed int64, i int, nOps int) History {
 	r := gen.New(seed, "C14/history", i)
 	p := buildPool()
-	nFonts := gen.Pick(r, []int{1, 1, 2, 2, 3, 3, 4, 5, 6, 8, 10, 12})
+	nFonts := gen.Pick(r, []int{1, 1, 2, 2, 3, 3, 4, 5, 6, 8, 10, 12, 16, 20, 28}) // >= 13 candidates: sort.Sort stops being an insertion sort
 	if nFonts > len(p) {
 		nFonts = len(p)
 	}
